@@ -96,9 +96,20 @@ func (g *fgen) setupGinvs() {
 	} else if g.fn != nil && g.fn.Parent() != nil && g.fn.Parent().Pkg != nil {
 		walk(g.fn.Parent().Pkg.Pkg)
 	}
+	mentioned := g.mentionedNames()
 	for _, inv := range g.w.cs.ginvariants {
 		pkg := g.w.allTPkg[inv.pkgPath]
 		if pkg == nil || !visible[inv.pkgPath] {
+			continue
+		}
+		// relevance: an invariant of a type this function (its code, its contract, the
+		// contracts of its callees) never names constrains heap cells its verification
+		// condition never reads; leaving it out only drops an assumption
+		bn := strings.TrimPrefix(inv.recvType, "*")
+		if i := strings.LastIndex(bn, "."); i >= 0 {
+			bn = bn[i+1:]
+		}
+		if mentioned != nil && !mentioned[bn] {
 			continue
 		}
 		ct, err := parseTypeString(inv.recvType)
@@ -144,4 +155,118 @@ func (g *fgen) assertGinvs(st *state, kind, site string, pos token.Pos) {
 		g.oblige(kind, gi.decl.recvType+"@"+site, g.ginvFormula(gi, st), pos)
 		g.obls[len(g.obls)-1].src = "global invariant (" + gi.decl.recvName + " " + gi.decl.recvType + ") " + gi.decl.src
 	}
+}
+
+var reIdent = regexp.MustCompile(`[A-Za-z_][A-Za-z0-9_]*`)
+
+// mentionedNames: names of the struct types the function's code touches and every
+// identifier in its contract and in the contracts of its static callees.
+func (g *fgen) mentionedNames() map[string]bool {
+	if g.fn == nil {
+		return nil
+	}
+	out := map[string]bool{}
+	var addType func(t types.Type, depth int)
+	addType = func(t types.Type, depth int) {
+		if t == nil || depth > 3 {
+			return
+		}
+		switch u := t.(type) {
+		case *types.Pointer:
+			addType(u.Elem(), depth)
+		case *types.Slice:
+			addType(u.Elem(), depth)
+		case *types.Array:
+			addType(u.Elem(), depth)
+		case *types.Map:
+			addType(u.Key(), depth)
+			addType(u.Elem(), depth)
+		case *types.Named:
+			out[u.Obj().Name()] = true
+			if s, ok := u.Underlying().(*types.Struct); ok && depth < 3 {
+				for i := 0; i < s.NumFields(); i++ {
+					addType(s.Field(i).Type(), depth+1)
+				}
+			}
+		}
+	}
+	addContract := func(fc *funcContract) {
+		if fc == nil {
+			return
+		}
+		var srcs []string
+		for _, c := range fc.requires {
+			srcs = append(srcs, c.src)
+		}
+		for _, c := range fc.ensures {
+			srcs = append(srcs, c.src)
+		}
+		for _, c := range fc.defines {
+			srcs = append(srcs, c.src)
+		}
+		for _, ls := range fc.loops {
+			for _, c := range ls.invariants {
+				srcs = append(srcs, c.src)
+			}
+		}
+		srcs = append(srcs, fc.modifies...)
+		srcs = append(srcs, fc.preserves...)
+		for _, s := range srcs {
+			for _, id := range reIdent.FindAllString(s, -1) {
+				out[id] = true
+				// spec functions named by the clause: their bodies too (one level)
+				if sf := g.w.cs.specs[id]; sf != nil && sf.body != nil {
+					for _, id2 := range reIdent.FindAllString(sf.body.String(), -1) {
+						out[id2] = true
+					}
+					for _, p := range sf.params {
+						for _, id2 := range reIdent.FindAllString(p.typ.String(), -1) {
+							out[id2] = true
+						}
+					}
+				}
+			}
+		}
+	}
+	var visit func(fn *ssa.Function)
+	seen := map[*ssa.Function]bool{}
+	visit = func(fn *ssa.Function) {
+		if seen[fn] {
+			return
+		}
+		seen[fn] = true
+		for _, p := range fn.Params {
+			addType(p.Type(), 0)
+		}
+		for _, fv := range fn.FreeVars {
+			addType(fv.Type(), 0)
+		}
+		for _, b := range fn.Blocks {
+			for _, in := range b.Instrs {
+				if v, ok := in.(ssa.Value); ok {
+					addType(v.Type(), 0)
+				}
+				if ci, ok := in.(ssa.CallInstruction); ok {
+					c := ci.Common()
+					if c.IsInvoke() {
+						pp, k := ifaceMethodKey(c.Method)
+						addContract(g.w.cs.funcs[pp+"::"+k])
+					} else if callee := c.StaticCallee(); callee != nil {
+						addContract(g.w.contractFor(callee))
+						if sig := callee.Signature; sig != nil {
+							for i := 0; i < sig.Params().Len(); i++ {
+								addType(sig.Params().At(i).Type(), 1)
+							}
+						}
+					}
+				}
+			}
+		}
+		for _, a := range fn.AnonFuncs {
+			visit(a)
+		}
+	}
+	visit(g.fn)
+	addContract(g.fc)
+	return out
 }
